@@ -142,16 +142,31 @@ PointOf(m, x, y) ==
 
 Small(v, bound) == IvAbs(v) <= bound
 
-(* ---- T_linear: projection onto p1 p2.  g = <<p1x, p1y, p2x, p2y>> in half pixels ---------- *)
-LinearOpts(g, P) ==
+(* ---- T_linear: projection onto p1 p2 ------------------------------------------------------ *)
+(* g = <<p1x, p1y, p2x, p2y>> in units of 1/hu of a half pixel (hu = 1: the half-pixel lattice; *)
+(* a larger hu allows gradient vectors that are a small fraction of a pixel long, for which t   *)
+(* is thousands of periods away from [0,1]).  The colour depends on t only through              *)
+(* FoldRepeat, which has period 2 (NORMAL: 1), and is constant outside [0,1] for NONE and PAD   *)
+(* (stops lie in [0,1]), so the integer part q of t is reduced before scaling: exact.           *)
+ReduceQ(q, mode) ==
+    IF mode \in {"NORMAL", "REFLECT"} THEN q % 2
+    ELSE IF q < -2 THEN -2 ELSE IF q > 3 THEN 3 ELSE q
+
+LinearOpts(g, hu, P, mode) ==
     LET dx == g[3] - g[1]  dy == g[4] - g[2]  L == dx * dx + dy * dy
         X == P[1]  Y == P[2]  W == P[3]
-        ax == 2 * X - g[1] * W  ay == 2 * Y - g[2] * W IN
-    IF L = 0 \/ W = 0 \/ ~(Small(dx, 512) /\ Small(dy, 512) /\ Small(ax, 4096) /\ Small(ay, 4096) /\ Small(W, 1024))
+        ax == 2 * hu * X - g[1] * W  ay == 2 * hu * Y - g[2] * W IN
+    IF L = 0 \/ W = 0 \/ ~(Small(dx, 512) /\ Small(dy, 512) /\ Small(hu, 4096) /\ Small(X, 32768) /\ Small(Y, 32768)
+                          /\ Small(W, 1024) /\ Small(g[1], 1048576) /\ Small(g[2], 1048576)
+                          /\ Small(ax, 536870912 \div IvMax(IvAbs(dx), 1)) /\ Small(ay, 536870912 \div IvMax(IvAbs(dy), 1)))
     THEN {<<"any">>}
     ELSE LET N == ax * dx + ay * dy  D == W * L IN
-         IF ~DivFits(N, D) THEN {<<"any">>}
-         ELSE LET t == DivIv(N, D) IN {<<"t", t[1], t[2]>>}
+         IF IvAbs(D) >= 1073741824 THEN {<<"any">>}
+         ELSE LET n == IF D < 0 THEN -N ELSE N  d == IvAbs(D)
+                  q == n \div d  r == n % d
+                  f == IF d <= 8191 THEN (r * TS) \div d ELSE FracBits(r, d, TSBits)
+                  lo == ReduceQ(q, mode) * TS + f
+              IN {<<"t", lo, IF r = 0 THEN lo ELSE lo + 1>>}
 
 (* ---- T_radial: larger admissible root of the two-circle equation -------------------------- *)
 (* three-valued admissibility of parameter interval t: "yes" | "no" | "maybe" *)
@@ -232,10 +247,10 @@ ConicalOpts(g, P) ==
        ELSE {<<"t", 0, TS - a1>>, <<"t", 2 * TS - b1, TS>>}
 
 (* ---- one pixel ----------------------------------------------------------------------------- *)
-(* scn: [kind, g, stops, repeat, m, unit]                                                       *)
+(* scn: [kind, g, hu, stops, repeat, m, unit]                                                       *)
 Options(scn, x, y) ==
     LET P == PointOf(scn.m, x, y) IN
-    CASE scn.kind = "linear"  -> LinearOpts(scn.g, P)
+    CASE scn.kind = "linear"  -> LinearOpts(scn.g, scn.hu, P, scn.repeat)
       [] scn.kind = "radial"  -> RadialOpts(scn.g, P, scn.repeat)
       [] scn.kind = "conical" -> ConicalOpts(scn.g, P)
 
